@@ -164,6 +164,17 @@ pub trait ReferenceProcessor<Params, MapResult, ReduceResult>
     ///
     /// The result of the reduce operation, or `None` if the operation failed.
     fn reduce(map_result: &[MapResult]) -> Option<ReduceResult>;
+
+    /// Called for each file immediately before `map()`, with the same parameters and entries.
+    /// Processors that need to record something durable before a file is touched override this;
+    /// by default it does nothing.
+    ///
+    /// # Arguments
+    ///
+    /// * `context` - Application context.
+    /// * `params` - Any parameters to pass to the processor.
+    /// * `entries` - The log reference entries found in the file.
+    fn prepare(_context: &Context, _params: &Option<Params>, _entries: &[parser::LogRefEntry]) {}
 }
 
 /// A reference processor for determining the next available contiguous reference in a code base. As with
@@ -586,6 +597,41 @@ impl ReferenceProcessor<Arc<AtomicU32>, InsertReferencesResult, InsertReferences
         }
     }
 
+    /// Reserve, in the lock file, the IDs this file is about to receive. The lock file is written
+    /// again when the pass ends, but a process that dies in between must not leave it behind any
+    /// ID that has already been written to a source file.
+    fn prepare(
+        context: &Context,
+        params: &Option<Arc<AtomicU32>>,
+        entries: &[parser::LogRefEntry],
+    )
+    {
+        let num_missing_refs = entries
+            .iter()
+            .filter(|&e| !e.exists() && e.usable_reference_position())
+            .count();
+
+        if num_missing_refs == 0
+        {
+            return;
+        }
+
+        if let Some(next_reference_id) = params
+        {
+            let next_id = next_reference_id.load(std::sync::atomic::Ordering::Relaxed);
+
+            if next_id != EXHAUSTED_REFERENCE_ID
+            {
+                let reserved_up_to = u32::try_from(num_missing_refs)
+                    .ok()
+                    .and_then(|n| next_id.checked_add(n))
+                    .unwrap_or(EXHAUSTED_REFERENCE_ID);
+
+                context.cache_next_reference_id(reserved_up_to, context.config.config_dir.as_str());
+            }
+        }
+    }
+
     fn reduce(map_results: &[InsertReferencesResult]) -> Option<InsertReferencesResult>
     {
         let mut insert_count: usize = 0;
@@ -654,6 +700,8 @@ where
                     &file_contents,
                     &config_task_inner,
                 );
+
+                ProcessorType::prepare(context, &params_task_inner, &references);
 
                 if let Some(map_result) =
                     ProcessorType::map(&path, &file_contents, &params_task_inner, &references).await
